@@ -48,6 +48,20 @@ def run(chk, rng, replay=None):
         # widen the cross product: scale, fixed variables, both bound forms
         if r.random() < 0.4:
             d["options"]["scale"] = True
+        n = len(d["x0"])
+        u = r.random()
+        if u < 0.12:      # all variables fixed, with linear constraints that may be violated at the fixed point
+            vals = [float(np.round(v, 3)) for v in r.uniform(-1, 1, n)]
+            d["bounds"] = {"lb": vals, "ub": list(vals), "form": "Bounds"}
+            d["constraints"] = list(d.get("constraints", [])) + [{"type": "linear", "A": [[float(np.round(v, 3)) for v in r.normal(size=n)]],
+                                                                 "lb": ["-inf"], "ub": [float(np.round(r.uniform(-2, 2), 3))]}]
+        elif u < 0.3 and n > 1 and d.get("bounds") is not None:   # all but one fixed
+            keep = int(r.integers(n))
+            for i in range(n):
+                if i != keep:
+                    v = float(np.round(r.uniform(-1, 1), 3))
+                    d["bounds"]["lb"][i] = v
+                    d["bounds"]["ub"][i] = v
         return d
     runlevel.run_check(chk, rng, replay, "C02", MODULES, "nan", 260, 4000, {"C02", "C03"}, extra=truth, tweak=tweak,
                        doc="the returned x is an evaluated point, fun the raw value obtained there, maxcv the true maximum violation in the user's variables - for scale on/off, fixed variables, linear / nonlinear / dict constraints, one-sided / two-sided / equality limits, NaN and infinite function values, every status")
